@@ -173,7 +173,38 @@ class FactBase:
         return t
 
     def body(self, path):
-        return self.bodies.get(path)
+        b = self.bodies.get(path)
+        if b is None:
+            b = getattr(self, "_variants", {}).get(path)
+        return b
+
+    def pruned(self, path, tag, keep):
+        """a variant of body `path` in which each switch block in `keep` ({block: successor})
+        goes to that successor only: the function restricted to one arm of a decision.  The
+        variant is looked up by fb.body(name) but is not part of fb.bodies (censuses)."""
+        name = "%s#%s" % (path, tag)
+        vs = self.__dict__.setdefault("_variants", {})
+        if name in vs:
+            return name
+        b = self.bodies.get(path)
+        if b is None:
+            return None
+        d = dict(b.d)
+        d["path"] = name
+        d["variant_of"] = path
+        body = dict(d["body"])
+        blocks = list(body["blocks"])
+        for bb, tgt in keep.items():
+            blk = dict(blocks[bb])
+            t = blk["term"]
+            if t["k"] != "switch" or tgt not in [x[1] for x in t["targets"]] + [t["otherwise"]]:
+                return None
+            blk["term"] = {"k": "goto", "target": tgt, "span": t["span"], "pruned_switch": t}
+            blocks[bb] = blk
+        body["blocks"] = blocks
+        d["body"] = body
+        vs[name] = Body(self, d)
+        return name
 
     def const_bytes(self, path):
         c = self.consts.get(path)
